@@ -45,7 +45,7 @@ def run(prop, tier):
     rnd.shuffle(cases)
     backends = ["numpy"] + OTHERS
     tot = dict(n=0, nontrivial=0, calls=0, hypotests=0, seam_probes=0, float_probes=0, beyond_tail=0, compared=0, stub_calls=0,
-               refused_early=0, branch2=0, seam=0, capped=0, rescans=0)
+               refused_early=0, branch2=0, seam=0, capped=0, rescans=0, own_bounds=0)
     maxrel, per_backend, kinds = 0.0, {}, {}
     for be in backends:
         share, hypo_every, probes = PLAN[tier]["numpy" if be == "numpy" else "other"]
@@ -83,7 +83,7 @@ def run(prop, tier):
         invariants=INVARIANTS[:-1], actions={a: res.coverage.get(a, {}).get("taken", 0) for a in ACTIONS},
         traces_validated_against_impl=tot["n"], evaluations=tot["calls"] + tot["hypotests"], distinct_nontrivial=tot["nontrivial"],
         cases_emitted=len(cases), cases_per_backend=per_backend, by_kind=kinds, second_branch_cases=tot["branch2"], seam_cases=tot["seam"],
-        capped_band_entries=tot["capped"], second_scan_points_on_a_reused_calculator=tot["rescans"], calculator_runs=tot["calls"], hypotests=tot["hypotests"], seam_neighbour_probes=tot["seam_probes"],
+        capped_band_entries=tot["capped"], calculators_with_caller_poi_bounds=tot["own_bounds"], second_scan_points_on_a_reused_calculator=tot["rescans"], calculator_runs=tot["calls"], hypotests=tot["hypotests"], seam_neighbour_probes=tot["seam_probes"],
         float_probes=tot["float_probes"], pvalues_compared=tot["compared"], pvalues_beyond_tail=tot["beyond_tail"],
         distributions_before_teststatistic_refused=tot["refused_early"], max_rel_error_seen=maxrel, rtol=1e-10,
         rule=("TLC enumerates the calculator protocol (ChooseCase, TestStatistic, Distributions, PValues, ExpectedPValues) for every "
